@@ -71,7 +71,7 @@ class C14(Check):
 
     def strategy(self, env):
         small_entry = st.fixed_dictionaries({
-            "how": st.sampled_from(["writestr", "writestr", "writef", "write-file", "write-dir", "write-empty"]),
+            "how": st.sampled_from(["writestr", "writestr", "writef", "write-file", "write-dir", "write-empty", "writeall-tree", "fail-writef"]),
             "data": st.one_of(st.binary(min_size=0, max_size=60).map(lambda b: ["hex", b.hex()]),
                               st.tuples(st.just("gen"), st.sampled_from(["text", "random", "zeros"]), st.integers(0, 400), st.integers(0, 999)).map(list)),
             "mode": st.just(0o644), "mtime_ns": st.just(10 ** 18)})
@@ -94,10 +94,13 @@ class C14(Check):
         e = [{"how": "writestr", "data": ["hex", "68656c6c6f20776f726c64"], "mode": 0o644, "mtime_ns": 10 ** 18},
              {"how": "writestr", "data": ["gen", "text", 120, 3], "mode": 0o644, "mtime_ns": 10 ** 18}]
         d = [{"how": "write-dir", "data": ["hex", ""], "mode": 0o755, "mtime_ns": 10 ** 18}]
+        # a tree added with writeall() followed by more members, and a call that fails in the middle of the session
+        t = [e[0], {"how": "writeall-tree", "data": ["hex", "7472656566696c65"], "mode": 0o644, "mtime_ns": 10 ** 18}, e[1]]
+        f = [e[0], {"how": "fail-writef", "data": ["hex", ""], "mode": 0o644, "mtime_ns": 10 ** 18}, e[1]]
         names = ["aa", "bb", "cc", "dd", "ee", "ff"]
         i = 0
         for header in ("encoded", "raw"):
-            for ents in (e, d, []):
+            for ents in (e, d, [], t, f):
                 i += 1
                 if env.mine(i):
                     yield {"kind": "create", "session": {"filters": [{"id": G.F_COPY}], "entries": ents}, "header": header, "names": names}
